@@ -2,10 +2,14 @@ package srvlab
 
 import (
 	"fmt"
+	"io"
+	"log"
 	"os"
 	"path/filepath"
 	"strings"
 	"time"
+
+	"github.com/rminnich/go9p"
 
 	"verif/core"
 	"verif/wire"
@@ -60,6 +64,21 @@ func c06Cases(tier string, seed int64) []core.Case {
 			cases = append(cases, core.Case{ID: fmt.Sprintf("tinymsize/%s/dotu=%v", server, dotu), Run: func(ctx *core.Ctx) core.Result {
 				return c06TinyMsize(ctx, server, dotu)
 			}})
+			// the same with every debug facility of the server switched on (messages formatted, printed and kept in
+			// the server's log ring): formatting a hostile message must not bring the server down either
+			for _, st := range []string{"none", "openfile", "opendir"} {
+				st := st
+				cases = append(cases, core.Case{ID: fmt.Sprintf("structured/%s/dotu=%v/%s/debug", server, dotu, st), Run: func(ctx *core.Ctx) core.Result {
+					debugAll = true
+					defer func() { debugAll = false }()
+					return c06Structured(ctx, server, dotu, st)
+				}})
+			}
+			cases = append(cases, core.Case{ID: fmt.Sprintf("mutated/%s/dotu=%v/debug", server, dotu), Run: func(ctx *core.Ctx) core.Result {
+				debugAll = true
+				defer func() { debugAll = false }()
+				return c06Mutated(ctx, server, dotu, 4, nmut/4)
+			}})
 			cases = append(cases, core.Case{ID: fmt.Sprintf("renegotiate/%s/dotu=%v", server, dotu), Run: func(ctx *core.Ctx) core.Result {
 				return c06Renegotiate(ctx, server, dotu)
 			}})
@@ -72,15 +91,16 @@ var c06states = []string{"none", "dir", "file", "openfile", "opendir", "clunked"
 
 // hostile is a server under attack plus its bystander connection.
 type hostile struct {
-	ctx      *core.Ctx
-	res      *core.Result
-	server   string
-	dotu     bool
-	s        *Sess
-	root     string
-	by       *CConn
-	byStat   string
-	sessions int
+	ctx        *core.Ctx
+	res        *core.Result
+	server     string
+	dotu       bool
+	s          *Sess
+	root       string
+	by         *CConn
+	byStat     string
+	sessions   int
+	restoreLog bool
 }
 
 func mkTree(dir string) error {
@@ -102,8 +122,18 @@ func mkTree(dir string) error {
 	return nil
 }
 
+// debugAll: the servers of the running case have Debuglevel = all four facilities (a worker runs one case at a time).
+var debugAll bool
+
 func newHostile(ctx *core.Ctx, res *core.Result, server string, dotu bool) *hostile {
 	h := &hostile{ctx: ctx, res: res, server: server, dotu: dotu}
+	dbg := 0
+	if debugAll {
+		dbg = go9p.DbgPrintFcalls | go9p.DbgPrintPackets | go9p.DbgLogFcalls | go9p.DbgLogPackets
+		log.SetOutput(io.Discard) // the messages are still formatted by the server; only the writing is dropped
+		h.restoreLog = true
+		res.Count("sessions_with_debug_facilities_on", 0)
+	}
 	if server == "ufs" {
 		h.root = filepath.Join(ctx.Scratch, fmt.Sprintf("c06-%d", ctx.Index))
 		_ = os.RemoveAll(h.root)
@@ -112,8 +142,9 @@ func newHostile(ctx *core.Ctx, res *core.Result, server string, dotu bool) *host
 			return nil
 		}
 		h.s = NewUfsSess(h.root, dotu, 8192)
+		h.s.Srv.Debuglevel = dbg
 	} else {
-		h.s = NewSess(Config{Dotu: dotu, Msize: 8192})
+		h.s = NewSess(Config{Dotu: dotu, Msize: 8192, Debug: dbg})
 	}
 	// the bystander: attached, with an open fid
 	h.by = h.s.Dial()
@@ -132,6 +163,9 @@ func newHostile(ctx *core.Ctx, res *core.Result, server string, dotu bool) *host
 }
 
 func (h *hostile) done() {
+	if h.restoreLog {
+		log.SetOutput(os.Stderr)
+	}
 	if h.root != "" {
 		_ = os.RemoveAll(h.root)
 	}
